@@ -96,8 +96,16 @@ def dispatch_signature(world, fi, cls):
                     ca = world.repo.class_attr(cls, n.attr)
                     if ca is not None:
                         sig.append((n.attr, ast.dump(ca)))
-            if isinstance(n, ast.Call) and isinstance(n.func, ast.Name) and n.func.id in ("type", "super"):
+            if isinstance(n, ast.Call) and isinstance(n.func, ast.Name) and n.func.id == "type":
                 sig.append(("type", cls))
+            if (isinstance(n, ast.Attribute) and isinstance(n.value, ast.Call) and isinstance(n.value.func, ast.Name)
+                    and n.value.func.id == "super" and f.cls):
+                m = world.repo.resolve_method(cls, n.attr, after=f.cls)
+                sig.append(("super." + n.attr, m.qualname if m else None))
+                if m is not None:
+                    c = world.find_contract(m.qualname, cls)
+                    if c is None or c.inline or m.qualname in world.inline_ok:
+                        todo.append(m)
     return tuple(sorted(set(sig)))
 
 
@@ -152,9 +160,9 @@ def lemma_engine(world, lem):
             locs[n.strip()] = eng.fresh(ty.strip(), n.strip())
         fr = Frame(None, None, locs, "spec/specs.py")
         for h in lem.hyp:
-            eng.assume(eng.truth(eng.eval_str(h, fr)))
+            eng.assume(eng.eval_merged(lambda h=h: eng.truth(eng.eval_str(h, fr))))
         for i, g in enumerate(lem.goal):
-            eng.oblige("lemma:%s[%d]" % (lem.name, i), eng.truth(eng.eval_str(g, fr)), kind="lemma", note=g)
+            eng.oblige("lemma:%s[%d]" % (lem.name, i), eng.eval_merged(lambda g=g: eng.truth(eng.eval_str(g, fr))), kind="lemma", note=g)
 
     eng.run_all(body)
     return eng
